@@ -167,6 +167,8 @@ def mk_cell(ctx, tmpl, tag, idx=None):
         md["k%d" % i] = ctx.md(tag)
     if tmpl.get("collapsed"):
         md["collapsed"] = False
+    if tmpl.get("tags"):
+        md["tags"] = list(tmpl["tags"])
     cell = {"cell_type": t, "metadata": md, "source": tmpl.get("text") or SRC[tmpl["src"]][0]}
     if t == "code":
         cell["execution_count"] = ctx.ec(tag)
@@ -201,6 +203,7 @@ TEMPLATES = {
     "codeJsc": dict(type="code", src="B", outputs=["json_scalar"], md=0),
     "codeS": dict(type="code", src="S", outputs=["stream"], md=0),
     "codeP": dict(type="code", src="P", outputs=[], md=0),
+    "codeT": dict(type="code", src="B", outputs=["stream"], md=0, tags=["a", "b"]),
     "md": dict(type="markdown", src="M", md=1, att=False),
     "mdAtt": dict(type="markdown", src="M", md=0, att=True),
     "raw": dict(type="raw", src="R", md=1),
@@ -220,7 +223,8 @@ NEW_TEMPLATES = {
 # ------------------------------------------------------------------- actions
 # action name -> applies to cell types
 CODE_ACTIONS = ["keep", "del", "src1", "src2", "src3", "src4", "src6", "src7", "rerun", "ec",
-                "out_edit", "out_edit2", "out_clear", "out_add", "out_del", "out_ptr",
+                "out_edit", "out_edit2", "out_clear", "out_add", "out_add2", "out_del", "out_ptr",
+                "tag_front", "tag_back",
                 "md_edit", "md_add", "md_del", "md_collapsed", "id", "dup", "to_md"]
 MD_ACTIONS = ["keep", "del", "src1", "src2", "src3", "src4", "src6", "md_edit", "md_add",
               "att_add", "att_del", "att_edit", "att_rename", "id", "dup"]
@@ -328,6 +332,11 @@ def apply_action(ctx, cell, action, tag):
             return [cell]
         c["outputs"] = list(cell["outputs"]) + [mk_output(ctx, "stderr", tag)]
         return [c]
+    if action == "out_add2":
+        if t != "code":
+            return [cell]
+        c["outputs"] = list(cell["outputs"]) + [mk_output(ctx, "error", tag)]
+        return [c]
     if action == "out_del":
         if t != "code" or not cell["outputs"]:
             return [cell]
@@ -343,6 +352,12 @@ def apply_action(ctx, cell, action, tag):
         md = dict(cell["metadata"])
         md["tags"] = ["t-" + tag[0]]
         md["added"] = ctx.md(tag)
+        c["metadata"] = md
+        return [c]
+    if action in ("tag_front", "tag_back"):
+        md = dict(cell["metadata"])
+        tags = list(md.get("tags", []))
+        md["tags"] = (["x"] + tags) if action == "tag_front" else (tags + ["x"])
         c["metadata"] = md
         return [c]
     if action == "md_del":
